@@ -185,6 +185,7 @@ func concMain(args []string) error {
 	ops := fs.Int("ops", 12, "operations per updater")
 	ns := fs.Int("sels", 40, "selections per selector goroutine (at most)")
 	burst := fs.Int("burst", 20, "selections per goroutine in the final quiet burst")
+	patience := fs.Duration("patience", 20*time.Second, "a run that takes longer is recorded as hung")
 	fs.Parse(args)
 	if _, err := newSelector(*strat, *wt); err != nil {
 		return err
@@ -197,12 +198,29 @@ func concMain(args []string) error {
 	total := 0
 	for i := 0; i < *runs; i++ {
 		rec := tr.New()
-		concRun(rng, concCfg{*strat, *wt, *upd, *sels, *ops, *ns, *burst}, rec)
-		for _, e := range rec.Close() {
+		done := make(chan struct{})
+		go func() {
+			concRun(rng, concCfg{*strat, *wt, *upd, *sels, *ops, *ns, *burst}, rec)
+			close(done)
+		}()
+		hung := false
+		select {
+		case <-done:
+		case <-time.After(*patience):
+			hung = true // some operation never returned: the trace ends with a Hang event and the driver stops
+		}
+		evs := rec.Close()
+		if hung {
+			evs = append(evs, tr.Ev{"e": "Hang"}, tr.Ev{"e": "Reset"})
+		}
+		for _, e := range evs {
 			if err := w.Write(e); err != nil {
 				return err
 			}
 			total++
+		}
+		if hung {
+			break
 		}
 	}
 	fmt.Printf("{\"runs\":%d,\"events\":%d}\n", *runs, total)
